@@ -406,3 +406,84 @@ decode_inst!(c11t_decode_u128_n17, 16, 17, false);
 decode_inst!(c11t_decode_i128_n17, 16, 17, true);
 decode_inst!(c11t_decode_u128_n18, 16, 18, false);
 
+
+
+// ---- the DEFAULT `ClvmEncoder::encode_bigint` (used by every encoder that does not override it,
+// e.g. clvm_utils::TreeHasher): arbitrary-precision integers take the same canonical form as the
+// fixed-width ones (`encode_number`, decided above), zero being the empty atom
+pub struct RecEnc {
+    pub bytes: [u8; 12],
+    pub len: usize,
+}
+#[derive(Clone)]
+pub struct RecNode;
+impl clvm_traits::ToClvm<RecEnc> for RecNode {
+    fn to_clvm(&self, _e: &mut RecEnc) -> Result<RecNode, clvm_traits::ToClvmError> {
+        Ok(RecNode)
+    }
+}
+impl clvm_traits::ClvmEncoder for RecEnc {
+    type Node = RecNode;
+    fn encode_atom(&mut self, atom: clvmr::Atom<'_>) -> Result<RecNode, clvm_traits::ToClvmError> {
+        let b = atom.as_ref();
+        self.len = b.len();
+        let mut i = 0;
+        while i < b.len() && i < 12 {
+            self.bytes[i] = b[i];
+            i += 1;
+        }
+        Ok(RecNode)
+    }
+    fn encode_pair(&mut self, _f: RecNode, _r: RecNode) -> Result<RecNode, clvm_traits::ToClvmError> {
+        Ok(RecNode)
+    }
+}
+
+fn bigint_default_is(v: i128) {
+    use clvm_traits::ClvmEncoder;
+    let mut e = RecEnc { bytes: [0; 12], len: 99 };
+    let r = e.encode_bigint(num_bigint::BigInt::from(v));
+    assert!(r.is_ok());
+    let want = encode_number(&v.to_be_bytes(), v < 0);
+    assert!(e.len == want.len(), "default encode_bigint: canonical length (zero is the empty atom)");
+    let mut i = 0;
+    while i < want.len() && i < 12 {
+        assert!(e.bytes[i] == want[i], "default encode_bigint: canonical bytes");
+        i += 1;
+    }
+    std::mem::forget(want);
+}
+
+#[kani::proof]
+#[kani::unwind(22)]
+fn c11t_encode_bigint_default_boundaries() {
+    // zero, the sign-byte boundaries of 1 and 2 bytes, and the u64 / i64 extremes
+    let k: u8 = kani::any();
+    kani::assume(k < 12);
+    let v: i128 = match k {
+        0 => 0,
+        1 => 1,
+        2 => 127,
+        3 => 128,
+        4 => 255,
+        5 => 256,
+        6 => -1,
+        7 => -128,
+        8 => -129,
+        9 => 0x7fff_ffff_ffff_ffff,
+        10 => 0xffff_ffff_ffff_ffff,
+        _ => -0x8000_0000_0000_0000,
+    };
+    bigint_default_is(v);
+    kani::cover!(k == 0);
+    kani::cover!(k == 11);
+}
+
+#[kani::proof]
+#[kani::unwind(22)]
+fn c11t_encode_bigint_default_all_i16() {
+    let v: i16 = kani::any();
+    bigint_default_is(v as i128);
+    kani::cover!(v == 0);
+    kani::cover!(v == -129);
+}
